@@ -309,3 +309,33 @@ func TestSelect(t *testing.T) {
 		}
 	}
 }
+
+// more tasks than slots: main keeps spawning without ever blocking, under a schedule that
+// prefers main, so nothing ends by itself
+func TestSlotPressure(t *testing.T) {
+	Start(&SchedConfig{Strategy: StratPrio, PrioRule: PrioMainFirst})
+	total := 0
+	n := MaxSlots + 500
+	var wg sync.WaitGroup
+	WGAdd(&wg, n)
+	for i := 0; i < n; i++ {
+		tk := Spawn()
+		go func() {
+			TaskBegin(tk)
+			defer TaskEnd(tk)
+			Yield(1)
+			total++
+			WGDone(&wg)
+		}()
+		Spawned()
+	}
+	WGWait(&wg)
+	Drain()
+	st := Stop()
+	if total != n {
+		t.Fatalf("total %d", total)
+	}
+	if st.SlotPressure == 0 {
+		t.Fatalf("slot pressure never hit (tasks %d)", st.Tasks)
+	}
+}
